@@ -33,14 +33,14 @@ def gen_abstract(scratch):
 
 def req_cases(prop, abstract, rnd, tier):
     out = []
-    draws = 6 if tier == "quick" else 40
+    draws = 6 if tier == "quick" else 300
     for a in abstract:
         competing = a["compQ"] or a["compB"]
         if prop == "C07" and not competing:
             continue
         if prop == "C03" and competing:
             continue
-        for d in range(draws if prop == "C03" else (3 if tier == "quick" else 12)):
+        for d in range(draws if prop == "C03" else (3 if tier == "quick" else 120)):
             c = dict(a)
             c.update(codec=rnd.choice(["json", "proto"]), gzip=rnd.random() < 0.25, spell=rnd.choice(["json", "proto"]),
                      invalid="", table=(d % 2 == 0), stream=rnd.random() < 0.15, fam="tc", zeropath=(prop == "C07" and d % 3 == 2),
@@ -73,7 +73,7 @@ def resp_cases(rnd, tier):
     types = ["application/json", "application/protobuf", "application/octet-stream", "application/x-verif", "application/*", "*/*", "text/html", "image/*"]
     ranges = [dict(type=t, q=q) for t in types for q in (10, 5, 0)]
     accepts = [[]] + [[r] for r in ranges] + [list(p) for p in itertools.product(ranges, repeat=2)]
-    accepts += [list(p) for p in rnd.sample(list(itertools.product(ranges, repeat=3)), 400 if tier == "quick" else 4000)]
+    accepts += [list(p) for p in rnd.sample(list(itertools.product(ranges, repeat=3)), 400 if tier == "quick" else 12000)]
     out = []
     for acc in accepts:
         for reqct in ["application/json", "application/protobuf", "application/octet-stream", "application/x-verif"]:
@@ -90,7 +90,7 @@ def resp_cases(rnd, tier):
             out.append(dict(fam="resp", accept=[dict(type="google.api.HttpBody", q=10)], lines=1, reqct=reqct, kind=kind, respbody="",
                             acceptenc="", junk="", hdr=""))
     rnd.shuffle(out)
-    return out[: (3000 if tier == "quick" else 60000)]
+    return out[: (3000 if tier == "quick" else 400000)]
 
 
 def run(prop, tier, replay=None):
